@@ -20,7 +20,11 @@ prop("C05", True, "A+B",
      'Records (ids included) and the canonical store dump after every call must equal the 1-shard default-schedule reference in every explored schedule; windows (one call each) are joined by that checked state equality; the number of distinct worker orders is reported as vacuity guard.',
      'Trusted: shuttle facade / channel shim (hooks H1-H3). Preemptions inside lock-protected sections beyond the fine tier are not explored; more than 3 shards only under the default schedule.',
      "7/C05")
-prop("C06", False, "B", "", "", NB, "7/C06")
+prop("C06", True, "B",
+     "stateless bounded-exhaustive exploration of all interleavings of the real batch predict loop, store workers, voting threads and result consumer under a controlled scheduler (shuttle runtime, own explorer with prefix replay): preemption-bounded for the 1x1 configuration, delay-bounded (every departure from the deterministic default schedule counts) elsewhere, bounds iterated 0,1,2,3..; deadlocks reported by the runtime",
+     "Every schedule within the completed bound is executed on the real BatchSort / BatchVisualSort for 3-4 worker configurations x batch sequences x two consumer disciplines; each must deliver one result per submitted scene with one record per detection in order, equal per scene to the simple tracker up to an id bijection, and terminate (submission, retrieval, drop). A discipline that violates the proviso is shown to deadlock (built-in detection demo).",
+     "Trusted: shuttle facade / channel shim (hooks H1-H3, H5 fixed-key hasher for the dispatch order). The evidence reports the largest bound completed per scenario; deeper bounds are cut by the wall cap. No separate protocol model for more workers / scenes than explored directly.",
+     "7/C06")
 prop("C07", True, "A+C",
      "exhaustive enumeration of all step words (predict / update with 6 kinds of measurement) up to a depth and of all periodic words of length <= 4 unrolled to 300 steps on the real filters, each step compared with an f64 textbook step from the implementation's own pre-state; complete f32 bit-pattern sweep of the cost conversions",
      "Bounded exhaustive search over filter histories (depth 5 quick / 7 thorough, 36+9 configurations) with a per-step reference, so no drift accumulates in the oracle; the cost functions are unary f32 functions and are checked on every non-negative bit pattern in the thorough tier.",
